@@ -109,6 +109,21 @@ pub fn footer_catalogue() -> Vec<String> {
         "-_".into(),
         "\u{7f}".into(),
         "\u{80}".into(),
+        // blank but NOT empty
+        " ".into(),
+        "  ".into(),
+        "\n".into(),
+        "\t".into(),
+        "\r\n".into(),
+        "\u{3000}".into(),
+        "\u{a0}".into(),
+        "\u{200b}".into(),
+        // long: anything that encodes into a fixed-size buffer somewhere must cope
+        ascii_of_len(192, 4),
+        ascii_of_len(193, 4),
+        ascii_of_len(768, 5),
+        ascii_of_len(769, 5),
+        ascii_of_len(4096, 6),
     ];
     // strings whose base64 differs only in the last character: same length, last byte differs in low bits
     v.push("xyz0".into());
